@@ -318,7 +318,7 @@ Definition is_number (v : hv) := match v with HNum _ | HBool _ => true | _ => fa
 
 (* numbers compared by _approx_check: close when either is a float, else == *)
 Definition approx_num (a b : num) : bool :=
-  if num_isfloat a || num_isfloat b then num_close a b else num_eqb a b.
+  if num_isfloat a || num_isfloat b then num_eqb a b || num_close a b else num_eqb a b.
 
 Definition approx_check (v1 v2 : hv) : res bool :=
   match v1 with
@@ -346,7 +346,7 @@ Definition approx_check (v1 v2 : hv) : res bool :=
         match v1, v2 with HBool a, HBool b => Ok (Bool.eqb a b) | _, _ => Ok false end
       else if is_float v1 || is_float v2 then
         match v1, v2 with
-        | HNum a, HNum b => Ok (num_close a b)
+        | HNum a, HNum b => Ok (num_eqb a b || num_close a b)
         | _, _ => Ok false
         end
       else py_eq v1 v2
